@@ -160,6 +160,8 @@ func specParsed(p *FrameParser) bool {
 //@ ensures[C01.icmpinfo.q4]   ret1 == nil && p.Layers[1] == layers.LayerTypeICMPv4 ==> SpecQ4ok(p.ICMP4.Payload) && ret0.ICMPPair.SrcAddr == SpecQ4Src(p.ICMP4.Payload) && ret0.ICMPPair.DstAddr == SpecQ4Dst(p.ICMP4.Payload) && ret0.WrappedPacketID == SpecQ4ID(p.ICMP4.Payload)
 //@ ensures[C01.icmpinfo.pay4] ret1 == nil && p.Layers[1] == layers.LayerTypeICMPv4 ==> fresh(ret0.Payload) && len(ret0.Payload) <= len(p.ICMP4.Payload) - SpecQ4IHL(p.ICMP4.Payload) && forall(i, 0, len(ret0.Payload), ret0.Payload[i] == p.ICMP4.Payload[SpecQ4IHL(p.ICMP4.Payload)+i])
 //@ ensures[C02.icmpinfo.plain4] p.Layers[1] == layers.LayerTypeICMPv4 && SpecQ4Plain(p.ICMP4.Payload) ==> ret1 == nil && len(ret0.Payload) == SpecQ4PayLen(p.ICMP4.Payload)
+//@ ensures[C01.icmpinfo.hdr4]  ret1 == nil && p.Layers[1] == layers.LayerTypeICMPv4 && len(ret0.Payload) >= 8 ==> be16(ret0.Payload, 0) == be16(p.ICMP4.Payload, SpecQ4IHL(p.ICMP4.Payload)) && be16(ret0.Payload, 2) == be16(p.ICMP4.Payload, SpecQ4IHL(p.ICMP4.Payload)+2) && be16(ret0.Payload, 4) == be16(p.ICMP4.Payload, SpecQ4IHL(p.ICMP4.Payload)+4) && be16(ret0.Payload, 6) == be16(p.ICMP4.Payload, SpecQ4IHL(p.ICMP4.Payload)+6) && ret0.Payload[0] == p.ICMP4.Payload[SpecQ4IHL(p.ICMP4.Payload)]
+//@ ensures[C01.icmpinfo.hdr6]  ret1 == nil && p.Layers[1] == layers.LayerTypeICMPv6 && SpecQ6Next(p.ICMP6.Payload) != 0 && len(ret0.Payload) >= 8 ==> be16(ret0.Payload, 0) == be16(p.ICMP6.Payload, 44) && be16(ret0.Payload, 2) == be16(p.ICMP6.Payload, 46) && be16(ret0.Payload, 4) == be16(p.ICMP6.Payload, 48) && be16(ret0.Payload, 6) == be16(p.ICMP6.Payload, 50) && ret0.Payload[0] == p.ICMP6.Payload[44]
 //@ ensures[C02.icmpinfo.plainpay4] ret1 == nil && p.Layers[1] == layers.LayerTypeICMPv4 && SpecQ4Plain(p.ICMP4.Payload) ==> forall(i, 0, len(ret0.Payload), ret0.Payload[i] == p.ICMP4.Payload[20+i])
 //@ ensures[C01.icmpinfo.q6]   ret1 == nil && p.Layers[1] == layers.LayerTypeICMPv6 ==> SpecQ6ok(p.ICMP6.Payload) && ret0.ICMPPair.SrcAddr == SpecQ6Src(p.ICMP6.Payload) && ret0.ICMPPair.DstAddr == SpecQ6Dst(p.ICMP6.Payload)
 //@ ensures[C01.icmpinfo.id6]  ret1 == nil && p.Layers[1] == layers.LayerTypeICMPv6 ==> int(ret0.WrappedPacketID) == ite(SpecQ6Next(p.ICMP6.Payload) == 17, SpecQ6Len(p.ICMP6.Payload), 0)
